@@ -72,6 +72,7 @@ type runner struct {
 	drv    *hx.Driver
 	out    *outcome
 	lines  []string // op lines executed so far (input form)
+	nested bool     // executing a nested (interleaved) operation
 }
 
 func hexOf(b []byte) string {
@@ -100,6 +101,11 @@ func newRunner(cfg string, drv *hx.Driver, out *outcome) (*runner, error) {
 	}
 	r := &runner{drv: drv, out: out, bitmap: w[3] == "B"}
 	r.e = &env{ss: ss, nsec: nsec, plan: noFaults()}
+	r.e.nest = func(line string) {
+		r.nested = true
+		r.exec(strings.ReplaceAll(line, ",", " "))
+		r.nested = false
+	}
 	r.dev = &fakeDevice{e: r.e, data: make([]byte, ss*nsec)}
 	// the device starts out full of foreign-looking garbage: nothing of it may ever be readable
 	for i := range r.dev.data {
@@ -162,6 +168,18 @@ func parsePlan(toks []string) (*plan, []string, bool) {
 		case t == "HC":
 			pl.hc = true
 			modelToks = append(modelToks, t)
+		case strings.HasPrefix(t, "I:"):
+			// I:<HR|DR|DW>:<k>=<nested op line with ',' for ' '>
+			eq := strings.IndexByte(t, '=')
+			parts := strings.Split(t[:max(eq, 0)], ":")
+			if eq < 0 || len(parts) != 3 || (parts[1] != "HR" && parts[1] != "DR" && parts[1] != "DW") {
+				return nil, nil, false
+			}
+			k, err := strconv.Atoi(parts[2])
+			if err != nil || k < 0 {
+				return nil, nil, false
+			}
+			pl.interKind, pl.interK, pl.interLine = parts[1], k, t[eq+1:]
 		case strings.HasPrefix(t, "S"):
 			v, err := strconv.ParseUint(t[1:], 10, 64)
 			if err != nil {
@@ -244,12 +262,35 @@ func (r *runner) exec(line string) (ok bool) {
 	if !good {
 		return true
 	}
+	if pl.interKind != "" {
+		// the nested operation must be a write/read/truncate on a DIFFERENT open file, one level deep
+		nw := strings.Split(pl.interLine, ",")
+		valid := !r.nested && len(opw) >= 2 && len(nw) >= 3 && (nw[0] == "w" || nw[0] == "r" || nw[0] == "t") &&
+			nw[1] != opw[1] && !strings.Contains(pl.interLine, "I:")
+		if valid {
+			id, err := strconv.Atoi(nw[1])
+			valid = err == nil && r.file(id) != nil
+		}
+		if !valid {
+			pl.interKind = ""
+		}
+	}
+	if r.nested && opw[0] != "w" && opw[0] != "r" && opw[0] != "t" {
+		return true
+	}
 	r.e.plan = pl
 	defer func() {
 		if p := recover(); p != nil {
 			ok = r.fail("panic in the file pool during %q: %v", line, p)
 		}
 		r.e.plan = noFaults()
+		if pl.nested {
+			r.out.flags["interleaved"] = true
+			r.count("op-with-nested-operation")
+		}
+		if !r.nested && r.out.monitor != "" {
+			ok = false
+		}
 	}()
 	opPart := strings.Join(opw, " ")
 	atoi := func(s string) (int64, bool) {
@@ -352,7 +393,7 @@ func (r *runner) exec(line string) (ok bool) {
 		if err != nil && !pl.triggered() && off >= 0 {
 			return r.fail("WriteAt(%d bytes at %d) of file %d failed although nothing underneath failed: %v", len(data), off, id, err)
 		}
-		if err != nil && got == 0 && r.acct.nUsed != before {
+		if err != nil && got == 0 && r.acct.nUsed != before && !pl.nested {
 			return r.fail("WriteAt of file %d failed without writing anything but the number of allocated sectors changed from %d to %d", id, before, r.acct.nUsed)
 		}
 		if got > 0 {
@@ -569,6 +610,10 @@ func (r *runner) monitorAfter() bool {
 	if r.e.viol != "" {
 		return r.fail("%s", r.e.viol)
 	}
+	if r.nested {
+		// in the middle of another file's operation: that file may hold sectors it has not linked in yet
+		return true
+	}
 	owner := map[uint32]int{}
 	refs := 0
 	for id, f := range r.files {
@@ -604,7 +649,7 @@ func (r *runner) monitorAfter() bool {
 
 // dumpCheck compares the abstract state (allocated set, file sizes) with the model's.
 func (r *runner) dumpCheck(mutating bool) bool {
-	if mutating && r.drv != nil {
+	if mutating && r.drv != nil && !r.nested {
 		return r.ask("dump", r.dump())
 	}
 	return true
@@ -700,6 +745,7 @@ type gen struct {
 	maxIdx  int
 	faulty  bool
 	fill    bool
+	inter   bool
 	created int
 	lines   []string
 }
@@ -798,6 +844,47 @@ func (g *gen) faults(kind string) string {
 	return ""
 }
 
+// interleave returns a token that runs a complete write/read/truncate on another open file in
+// the middle of the operation on file id (when the k-th call of one of the given kinds is entered).
+func (g *gen) interleave(id int, kinds ...string) string {
+	if !g.inter || !g.r.Chance(1, 3) {
+		return ""
+	}
+	var others []int
+	for j, f := range g.run.files {
+		if f.open && j != id {
+			others = append(others, j)
+		}
+	}
+	if len(others) == 0 {
+		return ""
+	}
+	j := others[g.r.Intn(len(others))]
+	f := g.run.files[j]
+	size := len(f.exp)
+	limit := int64(g.maxIdx * g.ss)
+	var nested string
+	switch g.r.Pick(6, 2, 2) {
+	case 0:
+		off, n := g.pickOff(size), g.pickLen()
+		if off+int64(n) > limit {
+			off = max(limit-int64(n), 0)
+			n = int(min(int64(n), limit-off))
+		}
+		nested = fmt.Sprintf("w,%d,%d,%s,|,S%d", j, off, g.data(f.tag, n), g.r.Intn(1<<30))
+	case 1:
+		nested = fmt.Sprintf("r,%d,%d,%d", j, g.pickIn(size), g.pickLen())
+	default:
+		nested = fmt.Sprintf("t,%d,%d", j, min(int64(g.r.Intn(size+g.ss+1)), limit))
+	}
+	kind := kinds[g.r.Intn(len(kinds))]
+	k := g.r.Intn(3)
+	if kind == "DW0" { // Truncate issues at most one device write
+		kind, k = "DW", 0
+	}
+	return fmt.Sprintf(" I:%s:%d=%s", kind, k, nested)
+}
+
 func (g *gen) emit(line string) bool {
 	g.lines = append(g.lines, line)
 	return g.run.exec(line)
@@ -868,7 +955,8 @@ func (g *gen) next() bool {
 			off = max(limit-int64(n), 0)
 			n = int(min(int64(n), limit-off))
 		}
-		return g.emit(fmt.Sprintf("w %d %d %s | S%d%s", id, off, g.data(f.tag, n), g.r.Intn(1<<30), g.faults("w")))
+		return g.emit(fmt.Sprintf("w %d %d %s | S%d%s%s", id, off, g.data(f.tag, n), g.r.Intn(1<<30), g.faults("w"),
+			g.interleave(id, "HR", "DW", "HR")))
 	case 1:
 		off, n := g.pickIn(size), g.pickLen()
 		if g.r.Chance(1, 8) {
@@ -877,7 +965,7 @@ func (g *gen) next() bool {
 		if g.r.Chance(1, 40) {
 			n = 0
 		}
-		fl := g.faults("r")
+		fl := g.faults("r") + g.interleave(id, "HR", "DR")
 		if fl != "" {
 			fl = " |" + fl
 		}
@@ -896,6 +984,7 @@ func (g *gen) next() bool {
 		}
 		sz = min(sz, limit)
 		fl := g.faults("t")
+		fl += g.interleave(id, "DW0")
 		if fl != "" {
 			fl = " |" + fl
 		}
@@ -950,7 +1039,8 @@ func generate(rng *hx.Rand, drv *hx.Driver) ([]string, outcome) {
 	}
 	cfg := fmt.Sprintf("cfg %d %d %s", ss, nsec, kind)
 	out := outcome{flags: map[string]bool{}, hist: map[string]int{}}
-	g := &gen{r: rng, ss: ss, nsec: nsec, maxIdx: min(nsec+6, 40), faulty: rng.Chance(1, 2), fill: rng.Chance(1, 4), lines: []string{cfg}}
+	g := &gen{r: rng, ss: ss, nsec: nsec, maxIdx: min(nsec+6, 40), faulty: rng.Chance(1, 2), fill: rng.Chance(1, 4),
+		inter: rng.Chance(1, 3), lines: []string{cfg}}
 	r, err := newRunner(cfg, drv, &out)
 	if err != nil {
 		out.mismatch = err.Error()
@@ -993,7 +1083,7 @@ func generate(rng *hx.Rand, drv *hx.Driver) ([]string, outcome) {
 
 func main() {
 	o := hx.ParseFlags()
-	res := hx.NewResult("filepool", o, "random write/read/truncate/seek/len/close histories over 1-6 simultaneously open files (<= 10 per history) of the real block-device-backed pool; sector sizes {1,2,3,8,512}, devices of 1-130 sectors, scripted or real bitmap allocator, tagged non-zero hole sources, offsets at sector boundaries +-1 and around the file size, faults injected into device reads/writes, hole-source reads/seeks/Truncate/Close and allocations; non-trivial = the history re-used a freed sector, shrank a file into the middle of a sector, and wrote to at least two files; distinct = hash of the op list")
+	res := hx.NewResult("filepool", o, "random write/read/truncate/seek/len/close histories over 1-6 simultaneously open files (<= 10 per history) of the real block-device-backed pool; sector sizes {1,2,3,8,512}, devices of 1-130 sectors, scripted or real bitmap allocator, tagged non-zero hole sources, offsets at sector boundaries +-1 and around the file size, faults injected into device reads/writes, hole-source reads/seeks/Truncate/Close and allocations; in a third of the histories operations are interleaved: a complete write/read/truncate on ANOTHER file runs (re-entrantly, deterministically) in the middle of an operation, when one of its hole-source reads or device reads/writes is entered - judged by the same per-file oracle and accounting, and compared with the model as 'nested operation first, then the outer one'; non-trivial = the history re-used a freed sector, shrank a file into the middle of a sector, and wrote to at least two files; distinct = hash of the op list")
 	drv, err := hx.StartDriver("filepool")
 	if err != nil {
 		fmt.Fprintln(os.Stderr, "cannot start model driver:", err)
